@@ -11,7 +11,9 @@
    Independence.trash_each_runs), and the exit status is 0 exactly when every one of them reported success.
    Independence of OUTCOMES on the file system (an argument's result equals its result when run alone - the answers of
    the file system may depend on what earlier arguments did) is decided by the check's oracle. *)
-From TV Require Import Prelude.Str Logic.OrigLoc Prog.Prog Cmd.Put Proofs.ProgProofs Proofs.PutSafe Proofs.PutProofs Proofs.Independence Proofs.FailedPut.
+From TV Require Import Prelude.Str Logic.OrigLoc Prog.Prog Cmd.Put Proofs.ProgProofs Proofs.PutSafe Proofs.PutProofs Proofs.Independence Proofs.FailedPut Proofs.Interrupted.
+From Coq Require Import List.
+Import ListNotations.
 Open Scope N_scope.
 
 Theorem exit_status_iff_no_failure_reported : forall o,
@@ -61,6 +63,21 @@ Proof.
   - intros [= <-]. reflexivity.
 Qed.
 Print Assumptions nfail_counts_reports.
+
+(* ^C at a prompt (Interrupted.v): the question of -i is the only place where trash-put asks anything, and the handler around it
+   catches end of input only.  In every run in which a prompt is answered by KeyboardInterrupt that answer is the LAST operation of the
+   run and the run ends with that exception: no exit status is computed for the arguments still pending - in particular not 0. *)
+Theorem interrupted_prompt_ends_the_run : forall o t out, run_of (put_main o) t out ->
+  forall q, In (Input q, RErr KeyboardInterrupt) t ->
+  out = Uncaught KeyboardInterrupt /\ exists t0, t = t0 ++ [(Input q, RErr KeyboardInterrupt)].
+Proof. exact interrupted_prompt_ends_the_run_lemma. Qed.
+Print Assumptions interrupted_prompt_ends_the_run.
+
+Example an_interrupted_run :
+  let r := run_oracle (put_main (mkput [$"/x"; $"/y"] None ModeInteractive None false 0 [] 0 5))
+                      [RBool true; RBool true; RBool true; RErr KeyboardInterrupt] in
+  snd r = Uncaught KeyboardInterrupt /\ exists q, last (fst r) (Now, RUnit) = (Input q, RErr KeyboardInterrupt).
+Proof. cbv zeta. split; [vm_compute; reflexivity|]. eexists. vm_compute. reflexivity. Qed.
 
 (* a name that is not valid UTF-8 is a per-argument failure, not a crash (/repo fix 92b67c4):
    make_trashinfo_data converts UnicodeEncodeError into the failure reason *)
